@@ -1,6 +1,7 @@
 """C18 — anti-entropy digests: order-insensitivity, coverage, key/value binding, selection by bucket only, bidirectional merge."""
 import re
 from .facts import callee, op_place, op_local
+from .lib2 import iter_chain
 from .lib import src_of_operand, src_of_place, is_callee, TRANSPARENT, switch_info
 from . import lib2
 
@@ -25,6 +26,9 @@ def run(ck, ctx):
                      "hash fields are never combined with a commutative or self-inverse operator (xor/add/or)")
     ck.rule("R18.6", "selection by bucket only: get_keys_in_buckets filters solely on bucket membership (every key of a divergent "
                      "bucket, tombstones included, is shipped up to the per-round limit)")
+    ck.rule("R18.7", "the per-round limit bounds what is sent, not what is examined: in anti_entropy.rs a take/skip/step_by never "
+                     "sits between the key map and the divergent-bucket filter (with a stable iteration order a bounded scan "
+                     "never reaches the divergent keys behind it, and repeating the round does not help)")
     ck.nd("termination within finitely many rounds under max_keys_per_sync (iteration order at run time); hash collisions")
     for cfg in ctx.configs:
         prog = ctx.prog(cfg)
@@ -279,6 +283,24 @@ def _rules(ck, prog, cfg):
                          "%s:from_state-depth%s" % (f.id.replace("replication::", ""), _tag(cfg)),
                          "a digest is built with depth %s, not the configured merkle_tree_depth" % d.path(), f.where(t["ln"]), detail="configured depth")
     ck.floor("R18.4" + _tag(cfg), n4, 1)
+    # ---- R18.7 limit after the bucket filter
+    n7 = 0
+    for f in prog.lib_fns():
+        if not f.file.endswith("replication/anti_entropy.rs"):
+            continue
+        for ff in (prog.with_children(f) if "{closure" not in f.id else ()):
+            for b, t in ff.calls():
+                if not is_callee(t, r"Iterator>::(filter|filter_map|take_while|skip_while)$", r"Iterator::(filter|filter_map)$"):
+                    continue
+                ch = iter_chain(ff, t["args"][0])
+                names = [n for n, _ in ch]
+                n7 += 1
+                cut = [n for n in names if n in ("take", "skip", "step_by", "nth", "truncate")]
+                ck.check(not cut, "R18.7", "%s:limit-before-filter%s" % (f.id.replace("replication::anti_entropy::", ""), _tag(cfg)),
+                         "the key map is cut by %s before the divergent-bucket filter sees it: keys beyond the cut are never examined, so a "
+                         "divergent key stored behind it is never shipped and the replicas' digests never become equal" % cut,
+                         ff.where(t["ln"]), detail="filter over %s" % list(reversed(names)))
+    ck.floor("R18.7" + _tag(cfg), n7, 2)
 
 
 def _ops(rv):
